@@ -8,7 +8,7 @@
    [collect_item] is the collector's handling of one piece after the clock was read
    (Collector._collect -> _TranslatingCallback -> _IntervaledCallback -> Generate/VerifyCallback). *)
 From Coq Require Import Lia Sorted.
-From Torf Require Import Base Pipeline PipelineProofs FlowProofs LastCallProofs VerifyTrueProofs LastCallVerify PipeExplore PipeExploreProofs PipeConfigs.
+From Torf Require Import Base Pipeline PipelineProofs FlowProofs LastCallProofs VerifyTrueProofs LastCallVerify DrainProofs LastCallVerdict PipeExplore PipeExploreProofs PipeConfigs.
 Open Scope Z_scope.
 
 (* under every schedule, thread count, interval and input: the done counter of every report lies
@@ -38,6 +38,35 @@ Theorem C12_last_report_is_total_verify : forall c s expd,
   exists pre idx e, s_calls s = pre ++ [(cf_total c, idx, e)].
 Proof. exact last_call_reports_total_verify. Qed.
 Print Assumptions C12_last_report_is_total_verify.
+
+(* UNBOUNDED, whatever the verdict: a verification run with a progress callback that was not told to stop makes its
+   last report with done = total -- also when it returns False because pieces are missing, missized or corrupt
+   (items carrying errors or no data are counted like any other) -- for every schedule, number of hashers,
+   reporting interval and clock.  With a passive callback (one that returns None) the run is never told to stop,
+   so the second theorem has no side condition.  (Uses the drain and reader theorems of C03.) *)
+Theorem C12_last_report_is_total_unstopped_verify : forall c s r,
+  (1 <= cf_hashers c)%nat -> reach c s -> cf_verify c <> None -> has_user_cb c = true ->
+  zlen (yielded (cf_items c)) = cf_total c -> 0 < cf_total c ->
+  s_result s = Some r -> verdict r -> s_stop s = false ->
+  exists pre idx e, s_calls s = pre ++ [(cf_total c, idx, e)].
+Proof. exact last_call_reports_total_unstopped_verify. Qed.
+Print Assumptions C12_last_report_is_total_unstopped_verify.
+
+Theorem C12_last_report_is_total_quiet_verify : forall c s r,
+  (1 <= cf_hashers c)%nat -> reach c s -> cf_verify c <> None -> cf_plan c = CbQuiet ->
+  zlen (yielded (cf_items c)) = cf_total c -> 0 < cf_total c ->
+  s_result s = Some r -> verdict r ->
+  exists pre idx e, s_calls s = pre ++ [(cf_total c, idx, e)].
+Proof. exact last_call_reports_total_quiet_verify. Qed.
+Print Assumptions C12_last_report_is_total_quiet_verify.
+
+(* non-vacuity: a verification with a passive callback over three items of which the second carries a read error:
+   the run returns False and its last report is (3, _, _) *)
+Example C12_quiet_verify_example :
+  let s := auto_run 400 V_exc_cb (init V_exc_cb) in
+  reach V_exc_cb s /\ s_result s = Some ResFalse /\ cf_plan V_exc_cb = CbQuiet /\
+  s_calls s = [(1, 0, None); (2, 1, Some 2)] ++ [(3, 2, None)].
+Proof. split; [apply auto_run_reach; constructor|vm_compute; repeat split; reflexivity]. Qed.
 
 (* what one collected piece adds: nothing, or one batch carrying the current counter value;
    several entries only if all of them are errors *)
